@@ -52,6 +52,14 @@ func pathOf(name string) string { return "file_" + name + ".proto" }
 
 const extBasePath = "extension_base.proto"
 
+// Every generated file imports one private, valid helper file.  The executor opens a file's
+// imports from that file's own IR query, so holding back the helper is how the schedule half
+// delays exactly one file's lowering (opening the file itself happens in its importer).
+func depPathOf(name string) string { return "helper_" + name + ".proto" }
+func depText(name string) string {
+	return "syntax = \"proto2\";\npackage p;\nmessage Helper_" + name + " {}\n"
+}
+
 // renderFile turns the abstract file into .proto text (proto2, one package).
 func renderFile(f wsFile) string {
 	var sb strings.Builder
@@ -67,7 +75,9 @@ func renderFile(f wsFile) string {
 	if f.Kind == "extclash" {
 		fmt.Fprintf(&sb, "import \"%s\";\n", extBasePath)
 	}
+	fmt.Fprintf(&sb, "import \"%s\";\n", depPathOf(f.Name))
 	fmt.Fprintf(&sb, "message M_%s {\n", f.Name)
+	fmt.Fprintf(&sb, "  optional Helper_%s helper = 15;\n", f.Name)
 	for n, i := range imps {
 		fmt.Fprintf(&sb, "  optional M_%s f_%s = %d;\n", i, i, n+1)
 	}
@@ -393,6 +403,7 @@ func runWS(in *bufio.Scanner, sk *sink, args []string) {
 				hasExt := false
 				for _, f := range c.Files {
 					texts[pathOf(f.Name)] = renderFile(f)
+					texts[depPathOf(f.Name)] = depText(f.Name)
 					if f.InWs {
 						order = append(order, pathOf(f.Name))
 					}
@@ -433,7 +444,7 @@ func runWS(in *bufio.Scanner, sk *sink, args []string) {
 						wait := holdPlan(c, x)
 						if len(wait) > 0 {
 							for _, par := range holdPars {
-								variants = append(variants, variant{par: par, hold: pathOf(x), waitFor: wait,
+								variants = append(variants, variant{par: par, hold: depPathOf(x), waitFor: wait,
 									label: fmt.Sprintf("par=%d %s-lowered-last", par, pathOf(x))})
 							}
 						}
